@@ -97,7 +97,7 @@ public:
 	return false;
       }
     std::string dest_dir(args[1]);
-    if (dest_dir.back() != '/')
+    if (dest_dir.empty() || dest_dir.back() != '/')
       dest_dir.push_back('/');
 
     const DFS::SurfaceSelector surface(ctx.current_volume.surface());
